@@ -13,7 +13,14 @@ Inductive case_t : Type :=
   (* W workers, batch size B, how n_batches was announced, the n_batches attribute the real object computed, the
      wrapped transform as constructed, the schedule's values at batch 0..NB-1 (asked from an independent copy of the
      schedule), and per global sample in order: the worker that handled it, ctx[strength], wrapped state afterwards *)
-  | CSched (W : nat) (B : Z) (i : init_t) (NB : Z) (inner0 : tree) (values : list Q) (obs : list (nat * Q * tree)).
+  | CSched (W : nat) (B : Z) (i : init_t) (NB : Z) (inner0 : tree) (values : list Q) (obs : list (nat * Q * tree))
+  (* interleaved history on shared augmentation objects: W pipeline copies, the scheduled transforms' configurations,
+     the n_batches attributes the real objects computed, the members of the outer composition, the heap of augmentation
+     objects as constructed, per scheduled transform its schedule's values at batch 0..NB-1 (independent copy of the
+     schedule), and per step in time order: what was done (with the copy that did it), the value reported in ctx (the
+     factor for scale steps) and the copy's whole heap read back from the real objects afterwards *)
+  | CInter (W : nat) (cfgs : list scfg) (NBs : list Z) (outer : list member) (inners0 : list tree)
+           (values : list (list Q)) (obs : list (pstep * Q * list tree)).
 
 Fixpoint scan (t : tree) (fs : list Q) : list tree :=
   match fs with [] => [] | f :: r => let t' := tree_scale t f in t' :: scan t' r end.
@@ -61,6 +68,54 @@ Fixpoint sched_spec_from (n : Z) (B : Z) (inner0 : tree) (values : list Q) (obs 
       Qeq_bool v want && tree_approx (tree_scale inner0 want) t && sched_spec_from (n + 1)%Z B inner0 values r
   end.
 
+Definition tables (values : list (list Q)) : nat -> Z -> Z -> Q := fun k => table (nth k values []).
+
+Definition inter_model_ok (W : nat) (cfgs : list scfg) (NBs : list Z) (outer : list member) (inners0 : list tree)
+                          (values : list (list Q)) (obs : list (pstep * Q * list tree)) : bool :=
+  forall2b Z.eqb (map (fun c : scfg => let '(B, i, _) := c in n_batches_of i B) cfgs) NBs &&
+  forallb tree_constructedb inners0 &&
+  forall2b (fun (m : Q * list tree) (o : pstep * Q * list tree) =>
+              let '(_, v, h) := o in Qeq_bool (fst m) v && forall2b tree_approx (snd m) h)
+           (ipool_run (tables values) outer (iinit_pool W cfgs inners0) (map (fun o => fst (fst o)) obs)) obs.
+
+Definition gstep_of (p : pstep) : gstep :=
+  match p with PCall _ k => GCall k | PScale w j f => GScale w j f | PScaleOuter w f => GScaleOuter w f end.
+Definition pstep_eqb (a b : pstep) : bool :=
+  match a, b with
+  | PCall w k, PCall w' k' => Nat.eqb w w' && Nat.eqb k k'
+  | PScale w j f, PScale w' j' f' => Nat.eqb w w' && Nat.eqb j j' && Qeq_bool f f'
+  | PScaleOuter w f, PScaleOuter w' f' => Nat.eqb w w' && Qeq_bool f f'
+  | _, _ => false
+  end.
+
+(* the steps as recorded are the round-robin routing of the history (the harness deals the samples itself: self-check) *)
+Definition inter_routed (W : nat) (cfgs : list scfg) (obs : list (pstep * Q * list tree)) : bool :=
+  let ps := map (fun o => fst (fst o)) obs in
+  forall2b pstep_eqb (route W cfgs (fun _ => O) (map gstep_of ps)) ps.
+
+(* the property on the implementation's output: every call of a scheduled transform reports its own schedule's value
+   at its own global batch and is applied with every object it reaches at `constructed scaled by that value` *)
+Definition inter_spec_ok (W : nat) (cfgs : list scfg) (outer : list member) (inners0 : list tree)
+                         (values : list (list Q)) (obs : list (pstep * Q * list tree)) : bool :=
+  let gs := map (fun o => gstep_of (fst (fst o))) obs in
+  forall2b (fun (m : Q * list tree) (o : pstep * Q * list tree) =>
+              let '(p, v, h) := o in
+              match p with
+              | PCall _ k =>
+                  match nth_error cfgs k with
+                  | Some (_, _, js) =>
+                      Qeq_bool (fst m) v &&
+                      forallb (fun j => match nth_error (snd m) j, nth_error h j with
+                                        | Some a, Some b => tree_approx a b
+                                        | None, None => true
+                                        | _, _ => false
+                                        end) js
+                  | None => false
+                  end
+              | _ => true
+              end)
+           (ispec_run W cfgs (tables values) outer inners0 (fun _ => O) (fun _ _ => None) gs) obs.
+
 Definition check (c : case_t) : nat :=
   match c with
   | CScale t0 steps =>
@@ -69,4 +124,8 @@ Definition check (c : case_t) : nat :=
   | CSched W B i NB inner0 values obs =>
       if negb (sched_spec_from 0%Z B inner0 values obs) then 2%nat
       else if negb (sched_model_ok W B i NB inner0 values obs) then 1%nat else 0%nat
+  | CInter W cfgs NBs outer inners0 values obs =>
+      if negb (inter_routed W cfgs obs) then 3%nat
+      else if negb (inter_spec_ok W cfgs outer inners0 values obs) then 2%nat
+      else if negb (inter_model_ok W cfgs NBs outer inners0 values obs) then 1%nat else 0%nat
   end.
